@@ -219,13 +219,13 @@ pub const SUBS: &[Sub] = &[
 pub fn run(ctx: &Ctx) {
     run_regress(ctx, SUBS);
     drive_enum(ctx, &SUBS[0], golden().core.len() as u64 * 5);
-    drive_random(ctx, &SUBS[1], ctx.n(30_000, 1_500_000), 1200);
-    drive_random(ctx, &SUBS[2], ctx.n(100_000, 5_000_000), 400);
-    drive_random(ctx, &SUBS[3], ctx.n(50_000, 2_000_000), 200);
-    drive_random(ctx, &SUBS[4], ctx.n(100_000, 5_000_000), 300);
+    drive_random(ctx, &SUBS[1], ctx.n(30_000, 15_000_000), 1200);
+    drive_random(ctx, &SUBS[2], ctx.n(100_000, 50_000_000), 400);
+    drive_random(ctx, &SUBS[3], ctx.n(50_000, 20_000_000), 200);
+    drive_random(ctx, &SUBS[4], ctx.n(100_000, 50_000_000), 300);
     if !ctx.quick() && !ctx.failed() {
-        crate::fuzzing::drive_fuzz(ctx, "bytes", 3_000_000);
-        crate::fuzzing::drive_fuzz(ctx, "modules", 1_000_000);
+        crate::fuzzing::drive_fuzz(ctx, "bytes", 1_000_000);
+        crate::fuzzing::drive_fuzz(ctx, "modules", 300_000);
     }
 }
 
